@@ -138,6 +138,7 @@ def run(ctx):
     c01.check_public(ctx, lits_)         # which samples are the fixed points (three modes): outside their span nothing is handed to the kernel
     from . import c10
     c10.check_dispatcher(ctx)       # which sample is pinned for a reference point is decided by the neighbour search the strategy name selects
+    c10.check_scans(ctx, fill_true_only=True)       # ... and by that search returning the documented neighbour (structural table only; C10)
     ctx.trust('field axioms; Abs(c*e)=|c|*Abs(e); Abs(e)=e for e declared positive: x[-1]-x[0]; Pow(1,a)=1, Pow(0,a)=0')
     ctx.assume('alpha > 0; strictly increasing x; every window holds at least one interior sample (else the documented [1,1] case)',
                'smoothing (s given) is outside the rule')
